@@ -219,18 +219,17 @@ Definition st_prepend (s : stream) (bs : bits) : stream * res unit :=
   (mkstream (ba_prepend false (sbits s) bs) 0, Ok tt).
 (* BitStream.insert(bs, pos=None) *)
 Definition st_insert (s : stream) (bs : bits) (pos : option Z) : stream * res unit :=
-  if zlen bs =? 0 then (s, Ok tt) else
   let p := match pos with None => spos s | Some v => v end in
   let p := if p <? 0 then p + zlen (sbits s) else p in
-  if (0 <=? p) && (p <=? zlen (sbits s)) then on_content s (insert_ false (sbits s) bs p) (fun _ => p + zlen bs)
+  if (0 <=? p) && (p <=? zlen (sbits s)) then
+    (if zlen bs =? 0 then (s, Ok tt) else on_content s (insert_ false (sbits s) bs p) (fun _ => p + zlen bs))
   else (s, Err ValueError).
 (* ConstBitStream.overwrite(bs, pos=None) (inherited by BitStream) *)
 Definition st_overwrite (s : stream) (same_object : bool) (bs : bits) (pos : option Z) : stream * res unit :=
-  if zlen bs =? 0 then (s, Ok tt) else
   let p := match pos with None => spos s | Some v => v end in
   let p := if p <? 0 then p + zlen (sbits s) else p in
   if (p <? 0) || (p >? zlen (sbits s)) then (s, Err ValueError)
-  else on_content s (overwrite_ false same_object (sbits s) bs p) (fun _ => p + zlen bs).
+  else if zlen bs =? 0 then (s, Ok tt) else on_content s (overwrite_ false same_object (sbits s) bs p) (fun _ => p + zlen bs).
 Definition st_setitem_int (s : stream) (key : Z) (v : setval) := reset_if_len_changed s (ba_setitem_int false (sbits s) key v).
 Definition st_setitem_slice (s : stream) (k : pyslice) (v : setval) := reset_if_len_changed s (ba_setitem_slice false (sbits s) k v).
 Definition st_delitem_int (s : stream) (key : Z) := reset_if_len_changed s (ba_delitem_int false (sbits s) key).
